@@ -443,7 +443,21 @@ class invariant:  # pylint: disable=invalid-name
                 frame.filename, frame.lineno, frame.name
             )
 
-        if inspect.iscoroutinefunction(condition):
+        # A condition is asynchronous not only if it is a coroutine function itself: a callable object with
+        # ``async def __call__`` gives a coroutine as well, and an asynchronous generator function gives
+        # an (always truthy) asynchronous generator.
+        if (
+            inspect.iscoroutinefunction(condition)
+            or inspect.isasyncgenfunction(condition)
+            or (
+                not inspect.isfunction(condition)
+                and not inspect.ismethod(condition)
+                and (
+                    inspect.iscoroutinefunction(getattr(condition, "__call__", None))
+                    or inspect.isasyncgenfunction(getattr(condition, "__call__", None))
+                )
+            )
+        ):
             raise ValueError(
                 "Async conditions are not possible in invariants as sync methods such as __init__ have to be wrapped."
             )
